@@ -91,6 +91,20 @@ func (l *leaderEpochCache) LastOffsetForLeaderEpoch(epoch uint64) int64 {
 	return e.startOffset
 }
 
+// lookupLastOffsetForLeaderEpoch returns the start offset of the first leader
+// epoch larger than the provided one and true, or false if there is no such
+// epoch. Unlike LastOffsetForLeaderEpoch this distinguishes "no later epoch"
+// from a later epoch that started on an empty log (start offset -1).
+func (l *leaderEpochCache) lookupLastOffsetForLeaderEpoch(epoch uint64) (int64, bool) {
+	l.mu.RLock()
+	defer l.mu.RUnlock()
+	e := l.findEpoch(epoch + 1)
+	if e == nil {
+		return -1, false
+	}
+	return e.startOffset, true
+}
+
 // LastLeaderEpoch returns the latest leader epoch for the log.
 func (l *leaderEpochCache) LastLeaderEpoch() uint64 {
 	l.mu.RLock()
